@@ -60,9 +60,12 @@ IAnsUnsafe == { [A0 EXCEPT !.st = s, !.ccp = 0, !.ma = None, !.etag = 0, !.loc1 
 (***************************************************************************)
 WStored == { [A0 EXCEPT !.ma = 5, !.swr = w, !.vary = <<2>>, !.lm = l] : w \in {None, 10}, l \in (IF Thorough THEN {None, 100} ELSE {None}) }
 WFull == { [A0 EXCEPT !.ma = 60, !.etag = 2, !.vary = v[1], !.vs = v[2]] : v \in (IF Thorough THEN {<<<<2>>, 0>>, <<<<2, 3>>, 0>>, <<<<>>, 0>>} ELSE {<<<<2>>, 0>>, <<<<2, 3>>, 0>>}) }
-W304 == IF Thorough THEN { [A304 EXCEPT !.ma = m, !.age = a, !.nodate = d, !.etag = e, !.fl = f] : m \in {50, 5, None}, a \in {None, 2}, d \in {0, 1}, e \in {1, 2}, f \in {<<>>, <<"public">>} }
+W304 == IF Thorough THEN { [A304 EXCEPT !.ma = m, !.age = a, !.nodate = d, !.etag = e, !.fl = f] : m \in {50, 5, None}, a \in {None, 2}, d \in {0, 1}, e \in {1, 2},
+                                                                                                  f \in {<<>>, <<"public">>, <<"must-revalidate">>, <<"no-cache">>} }
         ELSE { A304, [A304 EXCEPT !.ma = None, !.nodate = 1], [A304 EXCEPT !.age = 2], [A304 EXCEPT !.etag = 2],
                [A304 EXCEPT !.ma = 5, !.nodate = 1],   \* a short new lifetime that starts when the 304 is received, not at the old Date
+               [A304 EXCEPT !.ma = 5, !.age = 2],      \* ... of which the 304's own Age has used up a part
+               [A304 EXCEPT !.fl = <<"must-revalidate">>, !.ma = 5], [A304 EXCEPT !.fl = <<"no-cache">>],
                [A304 EXCEPT !.fl = <<"public">>] }      \* two directives: the lifetime is not the first one
 
 Stored == IF DOMAIN ent = {} THEN NoEnt ELSE ent[CHOOSE i \in DOMAIN ent : TRUE]
